@@ -103,14 +103,18 @@ def negIf (neg : Bool) (t : TV) : TV := if neg then not3 t else t
 def cmpNat (a b : Nat) : Ordering := if a < b then .lt else if a = b then .eq else .gt
 def cmpInt (a b : Int) : Ordering := if a < b then .lt else if a = b then .eq else .gt
 
+/-- lexicographic combination of two comparisons: the second decides when the first is a tie -/
+def lexOrd (o1 o2 : Ordering) : Ordering :=
+  match o1 with
+  | .eq => o2
+  | o => o
+
 /-- lexicographic order on byte strings -/
 def cmpText : List Nat → List Nat → Ordering
   | [], [] => .eq
   | [], _ :: _ => .lt
   | _ :: _, [] => .gt
-  | a :: as, b :: bs => match cmpNat a b with
-    | .eq => cmpText as bs
-    | o => o
+  | a :: as, b :: bs => lexOrd (cmpNat a b) (cmpText as bs)
 
 /-- category of a non-NULL value (values of different categories are never compared by well-typed queries) -/
 def Value.rank : Value → Nat
@@ -122,9 +126,7 @@ def Value.cmp : Value → Value → Ordering
   | .int a, .int b => cmpInt a b
   | .bool a, .bool b => cmpNat a.toNat b.toNat
   | .text a, .text b => cmpText a b
-  | .rat a d, .rat b e => match cmpInt a b with
-    | .eq => cmpNat d e
-    | o => o
+  | .rat a d, .rat b e => lexOrd (cmpInt a b) (cmpNat d e)
   | a, b => cmpNat a.rank b.rank
 
 inductive CmpOp where
@@ -459,20 +461,20 @@ def limitOffset (limit : Option Nat) (offset : Nat) (rows : List Row) : List Row
 /-! ### ORDER BY -/
 
 /-- comparison of two sort-key values. NULL is the largest value unless `nullsFirst`; DESC reverses everything. -/
-def cmpKey (nullsFirst : Bool) (asc : Bool) (a b : Value) : Ordering :=
-  let o := match a, b with
-    | .null, .null => Ordering.eq
-    | .null, _ => if nullsFirst then .lt else .gt
-    | _, .null => if nullsFirst then .gt else .lt
-    | a, b => a.cmp b
-  if asc then o else o.swap
+def cmpNullable (nullsFirst : Bool) : Value → Value → Ordering
+  | .null, .null => .eq
+  | .null, _ => if nullsFirst then .lt else .gt
+  | _, .null => if nullsFirst then .gt else .lt
+  | a, b => a.cmp b
 
-/-- lexicographic comparison of key vectors; `dirs` = ascending? per key -/
+def cmpKey (nullsFirst : Bool) (asc : Bool) (a b : Value) : Ordering :=
+  if asc then cmpNullable nullsFirst a b else (cmpNullable nullsFirst a b).swap
+
+/-- lexicographic comparison of key vectors; `dirs` = ascending? per key (a missing key counts as NULL) -/
 def cmpKeys (nullsFirst : Bool) : List Bool → List Value → List Value → Ordering
-  | asc :: dirs, a :: as, b :: bs => match cmpKey nullsFirst asc a b with
-    | .eq => cmpKeys nullsFirst dirs as bs
-    | o => o
-  | _, _, _ => .eq
+  | [], _, _ => .eq
+  | asc :: dirs, as, bs =>
+    lexOrd (cmpKey nullsFirst asc (as.headD .null) (bs.headD .null)) (cmpKeys nullsFirst dirs as.tail bs.tail)
 
 def leKeys (nullsFirst : Bool) (dirs : List Bool) (a b : List Value × Row) : Bool :=
   cmpKeys nullsFirst dirs a.1 b.1 != .gt
@@ -768,7 +770,7 @@ inductive Outcome where
   | rows (rs : List Row)
   | affected (n : Nat)
   | error (e : Err)
-  deriving Repr, Inhabited
+  deriving DecidableEq, Repr, Inhabited
 
 def setTable (db : Db) (t : Nat) (rows : Table) : Db :=
   db.set t { (db.getD t default) with rows := rows }
